@@ -1145,7 +1145,11 @@ def build_case(ch, tier, force=None):
     case['share_suffix'] = ch.bool(0.3)
     case['decoy'] = f['decoy'] if 'decoy' in f else ch.bool(0.5)
     case['filler'] = ch.bytes(dlen)
-    case['queries'] = sorted(set([s['name'] for s in syms][:4] + [ch.choice(SYM_NAMES), 'zz_absent']))
+    # asked in a drawn order (a look-up that misses first may make the object build what later look-ups use, round 8), names borne by
+    # several symbols always among them
+    allnames = [s['name'] for s in syms]
+    dups = sorted({nm for nm in allnames if allnames.count(nm) > 1})
+    case['queries'] = ch.perm(sorted(set(allnames[:4] + dups[:4] + [ch.choice(SYM_NAMES), 'zz_absent'])))
     # layout
     chunks = I.chunk_ids(case)
     order = ch.perm(chunks) if ch.bool(0.6) else list(chunks)
